@@ -9,7 +9,7 @@ import props.C06 as C06
 RULE = ('grammar scripts x {strip_whitespace, use_space_around_operators, reindent with every sub-option combination (thorough) / sampled (quick)}; the stated normal form is checked on the output text and by re-lexing; '
         'the first two outputs are formatted again (fixed point); non-trivial = distinct (script, option set)')
 ASSUMPTIONS = ['re-lexing by the real lexer decides what is a comment/literal/operator in the output']
-PARTIAL = ['only serializer_no_trailing_blank is a theorem; the other clauses are checked by the oracle; known finding KF-C10-1 (operator followed by a line break)']
+PARTIAL = ['tree-level normal forms and the spaces fixed point are theorems; the reindent clause (clause keywords at line start) and the text-level reading of the normal forms are oracle-checked; known findings KF-C10-2..4']
 CLAUSE_KW = {'FROM', 'WHERE', 'GROUP BY', 'ORDER BY', 'HAVING', 'LIMIT', 'UNION', 'UNION ALL', 'EXCEPT', 'SET', 'AND', 'OR'}
 
 
@@ -18,7 +18,7 @@ def outside_regions(out):
     parts = []
     for tt, v in oracles.lex(out):
         if tt in T.Comment or tt in T.String or (tt in T.Name and v[:1] in '`"´[') or tt is T.Literal:
-            parts.append(''.join('\n' if ch == '\n' else 'x' for ch in v) if tt in T.Comment else 'x' * len(v))
+            parts.append('x' * len(v))
         else:
             parts.append(v)
     return ''.join(parts)
@@ -31,7 +31,7 @@ def check_stripws(ctx, text):
     ctx.nontrivial.add((text, 'strip_whitespace'))
     has_comment = any(tt in T.Comment for tt, _ in oracles.lex(out))
     bl = outside_regions(out)
-    if out != out.strip():
+    if bl != bl.strip():
         ctx.fail('strip_whitespace: leading or trailing blanks', text, observed=out[:200], required='stripped', options=repr(opts))
     elif re.search(r'[ \t\r\n][ \t\r\n]', bl) and not has_comment:
         ctx.fail('strip_whitespace: run of two whitespace characters outside comments and literals', text, observed=out[:300], required='single blanks', options=repr(opts))
